@@ -89,7 +89,8 @@ C04_BOUNDS = {
     "c04_dispatch_wiring": "<= 10 B symbolic length; handshake type over all 256 values, 24-bit length symbolic; all body parsers stubbed",
     "c04_new_session_ticket": "<= 9 B symbolic length; len argument over the full usize range",
     "c04_certificate": "<= 11 B symbolic length: up to 2 certificates, all u24 length fields symbolic",
-    "c04_certificate_request": "<= 8 B symbolic length; both forms",
+    "c04_certificate_request_6": "<= 6 B symbolic length; both forms",
+    "c04_certificate_request_8": "<= 8 B symbolic length; both forms",
 }
 reg("C04",
     H("c04", "c04_client_hello_shape_min", bounds="ClientHello of concrete shape: no session id, no ciphers, no compressions, no extension block; contents symbolic", funcs=["parse_tls_handshake_client_hello"]),
@@ -104,7 +105,8 @@ reg("C04",
     H("c04", "c04_certificate_status", tier="quick", timeout=600, mem=8, bounds=C04_BOUNDS.get("c04_certificate_status", "symbolic bytes; see harness source"), funcs=["certificate_status"]),
     H("c04", "c04_next_protocol", tier="quick", timeout=600, mem=8, bounds=C04_BOUNDS.get("c04_next_protocol", "symbolic bytes; see harness source"), funcs=["next_protocol"]),
     H("c04", "c04_key_update_and_hello_request", tier="quick", timeout=600, mem=8, bounds=C04_BOUNDS.get("c04_key_update_and_hello_request", "symbolic bytes; see harness source"), funcs=["key_update_and_hello_request"]),
-    H("c04", "c04_certificate_request", tier="quick", timeout=1200, mem=20, bounds=C04_BOUNDS.get("c04_certificate_request", "symbolic bytes; see harness source"), funcs=["certificate_request"]),
+    H("c04", "c04_certificate_request_6", tier="quick", timeout=900, mem=16, bounds=C04_BOUNDS.get("c04_certificate_request_6", "symbolic bytes; see harness source"), funcs=["certificate_request"]),
+    H("c04", "c04_certificate_request_8", tier="thorough", timeout=2400, mem=20, bounds=C04_BOUNDS.get("c04_certificate_request_8", "symbolic bytes; see harness source"), funcs=["certificate_request"]),
     H("c04", "c04_dispatch_wiring", tier="quick", timeout=900, mem=12, stubs=["all 15 parse_tls_handshake_msg_* body parsers (marker stubs)"], bounds=C04_BOUNDS.get("c04_dispatch_wiring", "symbolic bytes; see harness source"), funcs=["dispatch_wiring"]),
     H("c04", "c04_client_hello_38", tier="quick", timeout=900, mem=12, bounds=C04_BOUNDS.get("c04_client_hello_38", "symbolic bytes; see harness source"), funcs=["client_hello_38"]),
     H("c04", "c04_client_hello_41", tier="quick", timeout=900, mem=16, bounds=C04_BOUNDS.get("c04_client_hello_41", "symbolic bytes; see harness source"), funcs=["client_hello_41"]),
@@ -194,6 +196,9 @@ reg("C05",
     H("c05", "c05_derived_tag", bounds="GREASE / unknown type over all 65536 values", funcs=["TlsExtensionType::from(&TlsExtension)"]),
     )
 
+import thorough_names
+reg("C05", *[H("c05t", n, tier="thorough", timeout=1200, mem=12, bounds="extension type and content length concrete (%s), content and following byte symbolic; three dispatchers" % n[5:],
+               funcs=["parse_tls_extension", "parse_tls_client_hello_extension", "parse_tls_server_hello_extension"]) for n in thorough_names.C05T])
 reg("C05", H("c05", "c05_false_twin_dispatch_native", tier="thorough", expect_fail=True, bounds="vacuity guard: same body + assert!(false); must FAIL"))
 
 # ------------------------------------------------------------------------------------------------ C07
@@ -314,9 +319,9 @@ reg("C12",
         timeout=900, funcs=_CF) for k in range(8)],
     *[H("c12", "c12_frozen_%d" % k, bounds="rows %d/8 of the frozen snapshot (oracle-data/tls-ciphersuites.frozen.txt): present and unaltered" % k,
         timeout=900, funcs=_CF) for k in range(8)],
-    H("c12", "c12_from_name_a", bounds="one registry name (seed-selected) exact / one symbolic ASCII byte at a seed-selected position / strict prefix", timeout=1200, mem=12,
-      funcs=["TlsCipherSuite::from_name", "TryFrom<&str>"]),
-    H("c12", "c12_from_name_b", tier="thorough", bounds="second registry name, as above", timeout=1200, mem=12, funcs=["TlsCipherSuite::from_name", "TryFrom<&str>"]),
+    H("c12", "c12_from_name_a", bounds="one registry name (seed-selected), concrete: both lookup routes, strict prefix", timeout=900, mem=12, funcs=["TlsCipherSuite::from_name", "TryFrom<&str>"]),
+    H("c12", "c12_from_name_sym_a", tier="thorough", bounds="one registry name with one symbolic ASCII byte at a seed-selected position (352 x string compare)", timeout=3000, mem=20, funcs=["TlsCipherSuite::from_name"]),
+    H("c12", "c12_from_name_b", tier="thorough", bounds="second registry name, concrete", timeout=900, mem=12, funcs=["TlsCipherSuite::from_name", "TryFrom<&str>"]),
     )
 
 # ------------------------------------------------------------------------------------------------ C13
@@ -438,23 +443,30 @@ reg("C01",
     H("c01", "c01_fmt_u8_c", c01=True, timeout=900, mem=12, bounds="all Kani default checks; symbolic input (see harness)", funcs=["fmt_u8_c"]),
     H("c01", "c01_fmt_u16_a", c01=True, timeout=900, mem=12, bounds="all Kani default checks; symbolic input (see harness)", funcs=["fmt_u16_a"]),
     H("c01", "c01_fmt_u16_b", c01=True, timeout=900, mem=12, bounds="all Kani default checks; symbolic input (see harness)", funcs=["fmt_u16_b"]),
-    # every differential harness runs with all Kani default checks; for C01 an unwinding-assertion failure is a violation too
-    *_pick("C02", ["c02_raw_small", "c02_encrypted_small", "c02_header", "c02_raw_cap", "c02_plaintext_wiring", "c02_plaintext_heartbeat_3"], c01=True),
-    *_pick("C03", ["c03_two_ccs", "c03_two_alert", "c03_two_appdata", "c03_two_heartbeat", "c03_two_unknown_ff"], c01=True),
-    *_pick("C04", ["c04_dispatch_wiring", "c04_client_hello_41", "c04_new_session_ticket", "c04_hello_retry_request", "c04_certificate", "c04_certificate_request",
-                   "c04_certificate_status", "c04_next_protocol", "c04_key_update_and_hello_request", "c04_server_key_exchange", "c04_server_done",
-                   "c04_certificate_verify", "c04_finished", "c04_client_key_exchange", "c04_server_hello_tls12_42", "c04_server_hello_draft18_40",
-                   "c04_server_hello_unsupported_version"], c01=True),
-    *_pick("C05", ["c05_dispatch_generic", "c05_dispatch_client", "c05_dispatch_server", "c05_list_generic", "c05_content_sni_8", "c05_content_alpn_7",
-                   "c05_content_oid_filters_7", "c05_content_esni_12", "c05_content_supported_versions_5", "c05_content_status_request_4",
-                   "c05_content_early_data_2", "c05_content_groups_6", "c05_content_signature_algorithms_6", "c05_tag_sni", "c05_tag_supported_versions"], c01=True),
-    *_pick("C07", ["c07_lockstep_2_n3_1_2", "c07_lockstep_2_n1_0_1", "c07_any_state_step_d1", "c07_heartbeat_e2e_cut0_pl1", "c07_any_state_step_d2"], c01=True),
-    *_pick("C10", ["c10_record_header", "c10_record_wiring_small", "c10_hs_serverdone", "c10_hs_clientkeyexchange", "c10_hs_hello_verify_request",
-                   "c10_body_certificate_10", "c10_body_server_hello_42", "c10_record_ccs", "c10_record_alert"], c01=True),
-    *_pick("C13", ["c13_dh_params", "c13_ec_parameters", "c13_ecdh_params", "c13_ecpoint", "c13_digitally_signed", "c13_digitally_signed_old",
-                   "c13_content_and_signature_dh"], c01=True),
-    *_pick("C14", ["c14_sct_single", "c14_sct_list_wiring", "c14_sct_list_one_shape"], c01=True),
-    *_pick("C16", ["c16_lemma_many1_complete", "c16_tls_parser_is_parse_tls_plaintext"], c01=True),
+    # every differential harness runs with all Kani default checks; for C01 an unwinding-assertion failure is a violation too.
+    # quick tier: the cheaper half; thorough tier: all of them.
+    *_pick("C02", ["c02_raw_small", "c02_plaintext_wiring", "c02_plaintext_heartbeat_3"], c01=True),
+    *_pick("C02", ["c02_encrypted_small", "c02_header", "c02_raw_cap"], c01=True, tier="thorough"),
+    *_pick("C03", ["c03_two_appdata", "c03_two_heartbeat", "c03_two_unknown_ff"], c01=True),
+    *_pick("C03", ["c03_two_ccs", "c03_two_alert", "c03_handshake_list_wiring"], c01=True, tier="thorough"),
+    *_pick("C04", ["c04_dispatch_wiring", "c04_new_session_ticket", "c04_hello_retry_request", "c04_certificate", "c04_certificate_status", "c04_next_protocol",
+                   "c04_key_update_and_hello_request", "c04_server_key_exchange", "c04_finished", "c04_server_hello_tls12_42", "c04_server_hello_draft18_40"], c01=True),
+    *_pick("C04", ["c04_client_hello_41", "c04_certificate_request_6", "c04_server_done", "c04_certificate_verify", "c04_client_key_exchange",
+                   "c04_server_hello_unsupported_version"], c01=True, tier="thorough"),
+    *_pick("C05", ["c05_dispatch_generic", "c05_list_generic", "c05_content_sni_8", "c05_content_esni_12", "c05_content_supported_versions_5",
+                   "c05_content_status_request_4", "c05_content_early_data_2"], c01=True),
+    *_pick("C05", ["c05_dispatch_client", "c05_dispatch_server", "c05_content_alpn_7", "c05_content_oid_filters_7", "c05_content_groups_6",
+                   "c05_content_signature_algorithms_6", "c05_tag_sni", "c05_tag_supported_versions"], c01=True, tier="thorough"),
+    *_pick("C07", ["c07_lockstep_2_n1_0_1", "c07_heartbeat_e2e_cut0_pl1", "c07_any_state_step_d0"], c01=True),
+    *_pick("C07", ["c07_lockstep_2_n3_1_2", "c07_any_state_step_d1", "c07_any_state_step_d2"], c01=True, tier="thorough"),
+    *_pick("C10", ["c10_record_header", "c10_hs_serverdone", "c10_hs_hello_verify_request", "c10_body_certificate_10"], c01=True),
+    *_pick("C10", ["c10_record_wiring_small", "c10_hs_clientkeyexchange", "c10_body_server_hello_42", "c10_record_ccs", "c10_record_alert"], c01=True, tier="thorough"),
+    *_pick("C13", ["c13_dh_params", "c13_ec_parameters", "c13_ecdh_params", "c13_digitally_signed"], c01=True),
+    *_pick("C13", ["c13_ecpoint", "c13_digitally_signed_old", "c13_content_and_signature_dh"], c01=True, tier="thorough"),
+    *_pick("C14", ["c14_sct_list_wiring", "c14_sct_list_one_shape"], c01=True),
+    *_pick("C14", ["c14_sct_single"], c01=True, tier="thorough"),
+    *_pick("C16", ["c16_lemma_many1_complete"], c01=True),
+    *_pick("C16", ["c16_tls_parser_is_parse_tls_plaintext"], c01=True, tier="thorough"),
     )
 
 # ------------------------------------------------------------------------------------------------ C18
@@ -468,6 +480,7 @@ reg("C18",
         bounds="compile-time Send + Sync instantiations for every public value type; one registry lookup", funcs=["(trait solver)", "TlsCipherSuite::from_id"])
       for cfg in ("default", "nostd", "serialize")],
     )
+
 
 
 def harnesses(prop, tier):
